@@ -5,6 +5,7 @@ textual tests (`startswith(p + '/')`, slice, `partition('/')[0]`) mean "strictly
 "first element of the remainder" on valid paths.
 -/
 import TxdbusModel.Obj.Tree
+import TxdbusModel.Gen.Validators
 
 namespace Txdbus.Obj
 open TreeSpec Tree
@@ -45,6 +46,18 @@ theorem endsWithSlash_of_not_mem (e : Str) (h : '/' ∉ e) : endsWithSlash e = f
     | cons d r =>
       rw [endsWithSlash]
       exact ih (fun hm => h (List.mem_cons_of_mem _ hm))
+
+/-! ### the element alphabet and the source's character class -/
+
+/-- membership in a list of inclusive code-point ranges (the form of `Gen.Validators`) -/
+def inRanges (rs : List (Nat × Nat)) (n : Nat) : Bool := rs.any fun r => r.1 ≤ n && n ≤ r.2
+
+theorem elemCode_eq_gen (n : Nat) :
+    elemCode n = (inRanges Gen.Validators.objPathAllowed n && n != 47) := by
+  rw [Bool.eq_iff_iff]
+  simp only [elemCode, inRanges, Gen.Validators.objPathAllowed, List.any_cons, List.any_nil, Bool.or_false,
+    Bool.or_eq_true, Bool.and_eq_true, decide_eq_true_eq, beq_iff_eq, bne_iff_ne, ne_eq]
+  omega
 
 /-! ### validity -/
 
